@@ -199,3 +199,148 @@ HARNESSES = [
   H('C03_forever_fault', quick=dict(timeout=200), covers=['looped'], replay='replay_forever_fault',
     encodes=['carbon.writer:writeForever', 'carbon.writer:writeCachedDataPoints'], assumptions=_ASSUME),
 ]
+
+
+# ---- interleaving with the receiving thread ---------------------------------------------------------------------------------
+from vp_lib import racelab as R  # noqa: E402
+from vp_lib import sched, threadreplay  # noqa: E402
+
+COW = sched.coroutinise(W.writer, ['writeCachedDataPoints'], ['cache'], call_targets=R.TARGETS)       # statement-level coroutine of the writer pass
+if COW.__vp_missing__:
+  raise LookupError('cannot instrument carbon.writer')
+
+
+def _written_problem(db, pre, stores, cache):
+  """No faults, files exist: every datapoint (cached before, or stored meanwhile) is in exactly one
+  write call for its own metric, or still cached when the pass ends."""
+  written = {}
+  for c in db.calls:
+    if c[0] == 'write':
+      for (ts, v) in c[2]:
+        written.setdefault((c[1], ts), []).append(v)
+  versions = {}
+  for m, d in pre.items():
+    for ts, v in d.items():
+      versions.setdefault((m, ts), []).append(v)
+  for (m, ts, v) in stores:
+    versions.setdefault((m, ts), []).append(v)
+  left = K.contents(cache)
+  for (m, ts), vs in versions.items():
+    got = written.get((m, ts), [])
+    in_cache = m in left and ts in left[m]
+    if not got and not in_cache:
+      return 'datapoint %s@%s taken from the cache but never passed to database.write() (nor counted)' % (m, ts)
+    if len(got) > len(vs):
+      return 'datapoint %s@%s written %d times' % (m, ts, len(got))
+    if not in_cache and got[-1] != vs[-1]:
+      return 'the most recent value of %s@%s was neither written nor kept' % (m, ts)
+  for key in written:
+    if key not in versions:
+      return 'wrote a datapoint nobody stored: %r' % (key,)
+  return None
+
+
+def _race_setup(b0, b2, mi, ti, v, p1, n, p2):
+  stores = [(K.METRICS[mi], K.STAMPS[ti], v)]
+  plan = [('W', p1), ('R', n)] + ([('W', p2)] if p2 else [])
+  return [b0, False, b2, False], stores, plan
+
+
+def C03_race(strat: int, b0: bool, b2: bool, mi: int, ti: int, v: int, p1: int, n: int, p2: int) -> bool:
+  """
+  pre: 0 <= strat <= 6
+  pre: 0 <= mi <= 2 and 0 <= ti <= 2
+  pre: 0 <= p1 <= 60 and 0 <= n <= 12 and 0 <= p2 <= 10
+  post: __return__
+  """
+  bits, stores, plan = _race_setup(b0, b2, mi, ti, v, p1, n, p2)
+  R.CO.time = K.FakeTime(1000)
+  R.CO.choice = lambda seq: seq[0]
+  K.apply_limits(float('inf'), False)
+  K.sset('MIN_TIMESTAMP_LAG', 0)
+  cache = R.CO._MetricCache(K.strategy_class(R.CO, strat))
+  cache.lock = sched.CoopLock()
+  for i, bit in ((0, b0), (1, b2)):
+    if bit:
+      sched.run_to_end(cache.store(K.METRICS[i], (10, 1 + i)))
+  pre = K.contents(cache)
+  db = W.RecordingDB(preexisting=['a', 'b', 'c'])
+  W.install(cache, db, None, None, mod=COW)
+
+  def receiver():
+    for (m, ts, val) in stores:
+      yield from cache.store(m, (ts, val))
+  threads = {'W': sched.Thread('W', COW.writeCachedDataPoints()), 'R': sched.Thread('R', receiver())}
+  try:
+    trace = sched.run_plan(threads, plan, limit=600)
+  finally:
+    W.restore()
+  if [t for t in trace if t[0] == 'R'] and [t for t in trace if t[0] == 'W']:
+    cover('interleaved')
+  for t in threads.values():
+    if t.error is not None:
+      if isinstance(t.error, ValueError) and K.STRATEGY_NAMES[strat] == 'bucketmax':
+        return True                                   # known finding F5 (C17), not this property's clause
+      raise AssertionError('%s thread failed: %r' % (t.name, t.error))
+  problem = _written_problem(db, pre, stores, cache)
+  if problem:
+    raise AssertionError(problem)
+  return True
+
+
+def replay_race(strat, b0, b2, mi, ti, v, p1, n, p2):
+  bits, stores, plan = _race_setup(b0, b2, mi, ti, v, p1, n, p2)
+  # 1. statement trace from the coroutines
+  R.CO.time = K.FakeTime(1000)
+  R.CO.choice = lambda seq: seq[0]
+  K.apply_limits(float('inf'), False)
+  cache = R.CO._MetricCache(K.strategy_class(R.CO, strat))
+  cache.lock = sched.CoopLock()
+  for i, bit in ((0, b0), (1, b2)):
+    if bit:
+      sched.run_to_end(cache.store(K.METRICS[i], (10, 1 + i)))
+  db = W.RecordingDB(preexisting=['a', 'b', 'c'])
+  W.install(cache, db, None, None, mod=COW)
+
+  def receiver():
+    for (m, ts, val) in stores:
+      yield from cache.store(m, (ts, val))
+  threads = {'W': sched.Thread('W', COW.writeCachedDataPoints()), 'R': sched.Thread('R', receiver())}
+  try:
+    trace = sched.run_plan(threads, plan, limit=600)
+  finally:
+    W.restore()
+  # 2. the same schedule on real threads: real carbon.writer + real carbon.cache
+  K.real_cache.time = K.FakeTime(1000)
+  K.real_cache.choice = lambda seq: seq[0]
+  rcache = K.real_cache._MetricCache(K.strategy_class(K.real_cache, strat))
+  for i, bit in ((0, b0), (1, b2)):
+    if bit:
+      rcache.store(K.METRICS[i], (10, 1 + i))
+  pre = K.contents(rcache)
+  rdb = W.RecordingDB(preexisting=['a', 'b', 'c'])
+  W.install(rcache, rdb, None, None)
+  try:
+    results, problems = threadreplay.run_threads(
+      trace, {'W': W.writer.writeCachedDataPoints, 'R': lambda: [rcache.store(m, (ts, val)) for (m, ts, val) in stores]},
+      ('carbon/cache.py', 'carbon/writer.py'), R.TARGETS + ['writeCachedDataPoints'])
+  finally:
+    W.restore()
+    import time as _t
+    K.real_cache.time = _t
+  errs = [v for (k, v) in results.values() if k == 'error']
+  if problems and not errs:
+    raise RuntimeError('schedule could not be enforced on real threads: %r' % (problems,))
+  if errs:
+    return isinstance(errs[0], ValueError) and K.STRATEGY_NAMES[strat] == 'bucketmax'
+  return _written_problem(rdb, pre, stores, rcache) is None
+
+
+_RQ3 = [('s%d_%s_m%d' % (i, K.STRATEGY_NAMES[i] or 'none', m), 'strat == %d and mi == %d' % (i, m)) for i in (0, 3) for m in (0, 2)]
+_RS3 = [('s%d_%s_m%d' % (i, n or 'none', m), 'strat == %d and mi == %d' % (i, m)) for i, n in enumerate(K.STRATEGY_NAMES) for m in range(3)]
+HARNESSES.append(
+  H('C03_race', quick=dict(timeout=280, shards=_RQ3, extra_pre=['p2 == 0', 'ti != 1', 'b0 and not b2']), thorough=dict(timeout=1500, shards=_RS3),
+    covers=['interleaved'], replay='replay_race', twin_pre=['strat == 0 and mi == 0'],
+    encodes=['carbon.writer:writeCachedDataPoints (statement-level coroutine)', 'carbon.cache:_MetricCache.store / drain_metric / pop (statement-level coroutines)'],
+    assumptions=['schedules: the writer pass runs p1 statements, the receiver (one store) n statements or until blocked, [thorough: writer p2 more], then both to completion',
+                 'backend without faults, files pre-existing (fault patterns: C03_pass); counterexamples replayed on real OS threads running the real carbon.writer and carbon.cache']))
